@@ -186,6 +186,17 @@ where
             content
         }
         (UrlEncoded, UrlEncoded) => {
+            // As for query strings: refuse (rather than silently replace)
+            // bytes and escape sequences that are not valid UTF-8.
+            if percent_encoding::percent_decode(&body).decode_utf8().is_err()
+            {
+                return Err(HttpError::for_bad_request(
+                    None,
+                    String::from(
+                        "unable to parse URL-encoded body: invalid UTF-8",
+                    ),
+                ));
+            }
             let ud = serde_urlencoded::Deserializer::new(
                 form_urlencoded::parse(&body),
             );
